@@ -53,6 +53,7 @@ func (c17) Plan(tier string, seed int64) []mon.Workload {
 		{Name: "error-positions", N: b},
 		{Name: "rendering", N: 2000},
 		{Name: "expression-errors", N: int64(len(c17ErrExprs) * len(c17ErrCtx)), Exhaustive: true},
+		{Name: "link-errors", N: b / 3},
 	}
 }
 
@@ -155,6 +156,74 @@ func (k c17) Run(c *mon.Ctx, workload string, i int64) {
 		}
 	case "rendering":
 		k.runRender(c)
+	case "link-errors":
+		k.runLink(c)
+	}
+}
+
+// runLink: load-time errors of the use() linker (missing / broken / cyclic
+// callees at any depth, use calls in every syntactic place and at distinct
+// offsets): every position of every chain names a script of the set, lies
+// inside its text with the right line/column, and - for a script that is
+// itself well-formed - every entry is exactly the offset of one of the use()
+// calls written in the script it names (the statement at fault), innermost
+// first. The script sets are those of C09.
+func (k c17) runLink(c *mon.Ctx) {
+	k9 := c09{}
+	wl := "n4-random"
+	if c.R.Intn(3) == 0 {
+		wl = "n3-random"
+	}
+	cfg := k9.config(c, wl, 0)
+	srcs := map[string]string{}
+	calls := map[string][]c09Call{}
+	names := make([]string, cfg.N)
+	for s := 0; s < cfg.N; s++ {
+		names[s] = c09Name(s)
+		srcs[names[s]], calls[names[s]] = c09Source(cfg, s)
+	}
+	info := map[string]any{"configuration": cfg.String(), "scripts": srcs}
+	var errs map[string]error
+	var pan any
+	func() {
+		defer func() { pan = recover() }()
+		_, errs = drive.LoadV1(srcs)
+	}()
+	c.Eval(1)
+	if pan != nil {
+		c.Violate("link-panic", fmt.Sprintf("loading panicked: %v\n%s", pan, cfg), info)
+		return
+	}
+	for s, name := range names {
+		err := errs[name]
+		if err == nil {
+			continue
+		}
+		c.Count("link_errors_checked", 1)
+		c.Nontrivial(cfg.String() + "|" + name)
+		pe, ok := err.(*errchain.PlError)
+		if !ok || len(pe.PosChain) == 0 {
+			c.Violate("load-error-without-position", fmt.Sprintf("error of %s is %T %v\n%s", name, err, err, cfg), info)
+			return
+		}
+		for j, p := range pe.PosChain {
+			text, known := srcs[p.File]
+			if !known {
+				c.Violate("link-error-names-unknown-script", fmt.Sprintf("entry %d of the error of %s names %q\n  error: %q\n%s", j, name, p.File, pe.Error(), cfg), info)
+				return
+			}
+			if d := drive.CheckPosition(p, p.File, text); d != "" {
+				c.Violate("link-error-position-invalid", fmt.Sprintf("entry %d of the error of %s: %s\n  error: %q\n%s\n%s", j, name, d, pe.Error(), cfg, srcDump(srcs)), info)
+				return
+			}
+		}
+		c.MaxOf("longest_link_error_chain", int64(len(pe.PosChain)))
+		if cfg.Scripts[s].Kind == 0 {
+			if d := k9.checkChain(cfg, names, calls, s, err); d != "" {
+				c.Violate("link-error-position-wrong", fmt.Sprintf("error of %s: %s\n  error: %q\n%s\n%s", name, d, pe.Error(), cfg, srcDump(srcs)), info)
+				return
+			}
+		}
 	}
 }
 
